@@ -9,7 +9,7 @@ from simkit import gen
 from simkit.core import Failure
 from simkit.chooser import hash64
 from simkit.mserver import (ServerConfig, F_NONE, F_NO, F_BYE, F_SILENT, F_CLOSE, F_LOST_SILENT, F_LOST_CLOSE,
-                            F_RESET, F_LOST_RESET, F_DELAYED, FAULT_NAMES)
+                            F_RESET, F_LOST_RESET, F_DELAYED, F_TRUNC, F_TRUNC_SILENT, F_TRUNC_RESET, FAULT_NAMES)
 from simkit.world import World
 from simkit.tracefmt import render_events
 
@@ -20,7 +20,7 @@ EXHAUSTIVE = {"quick": True, "thorough": True}
 RULE = ("Grid (complete): initial store {old absent/present/active} x {new absent/present/active} (not both active) x "
         "bystanders {none, one, one active, two, two with one active} plus old == new, x one fault or none: step in "
         "{LISTSCRIPTS, GETSCRIPT, PUTSCRIPT, SETACTIVE, DELETESCRIPT} x kind in {NO, BYE, silence, close (FIN), reset (RST), applied then "
-        "silence / close / reset, applied and answered later than the read timeout}, plus quota refusal of the copy, x 8 body shapes (CRLF, LF, mixed, no final newline, "
+        "silence / close / reset, applied and answered later than the read timeout, applied and the reply cut at a drawn byte followed by close / silence / reset}, plus quota refusal of the copy, x 8 body shapes (CRLF, LF, mixed, no final newline, "
         "blank lines, multi-byte, empty, Unicode/VT/FF separators inside lines); double faults (quota refusal or forced NO at "
         "PUTSCRIPT/SETACTIVE/DELETESCRIPT followed by a second fault of any kind at the next occurrence of any step); a short "
         "history on the same client before the rename (listing, change of the active script); names with a twin that differs only "
@@ -33,7 +33,8 @@ ASSUMPTIONS = ["no other session modifies the store during the call (the propert
                "content is compared line by line, line-ending style and trailing blank lines aside"]
 
 STEPS = [b"LISTSCRIPTS", b"GETSCRIPT", b"PUTSCRIPT", b"SETACTIVE", b"DELETESCRIPT"]
-KINDS = [F_NO, F_BYE, F_SILENT, F_CLOSE, F_LOST_SILENT, F_LOST_CLOSE, F_RESET, F_LOST_RESET, F_DELAYED]
+KINDS = [F_NO, F_BYE, F_SILENT, F_CLOSE, F_LOST_SILENT, F_LOST_CLOSE, F_RESET, F_LOST_RESET, F_DELAYED, F_TRUNC, F_TRUNC_SILENT,
+         F_TRUNC_RESET]
 BODIES = [
     b"# one\r\nkeep;\r\n",
     b"# one\nkeep;\n",
